@@ -45,12 +45,12 @@ func (e *ErrUnsupported) Error() string { return "verif fake cannot interpret: "
 // consistent unless ConsistentRead is set: a plain read does not see the most
 // recent write.
 type Dynamo struct {
-	mu     sync.Mutex
-	Table  string
-	Region string
-	items  map[string]map[int64]map[string]AV // Id -> Created -> item
-	last   *[2]string                         // primary key of the most recent write (invisible to plain reads)
-	Log    []string
+	mu          sync.Mutex
+	Table       string
+	Region      string
+	items       map[string]map[int64]map[string]AV // Id -> Created -> item
+	last        *[2]string                         // primary key of the most recent write (invisible to plain reads)
+	Log         []string
 	Unsupported []string
 }
 
